@@ -68,6 +68,27 @@ Definition c10_run_class (alive probe stopped : bool) (panics : Z)
   else if negb (forallb (fun g => snd (fst g) =? 0) goods) then 6%N
   else 0%N.
 
+(* the receive path of one message: "a server keeps serving for every sequence of well-formed and malformed
+   datagrams [and] frames ...: it never crashes, deadlocks or stops accepting".  Whatever the bytes are, handing
+   one received message to the decoder of the connection must come back (with a message or with an error): the
+   udp server decodes inside the one read loop that all peers share, a stream server inside the reader of the
+   connection, which Stop waits for.  [returned] = per received message, the decode call returned before the
+   harness's cut-off (more attempts than the message has bytes); [panicked] likewise.
+   Classes: 2 panic, 13 the decode of a received message does not return. *)
+Definition c10_decode_class (returned panicked : list bool) : N :=
+  if existsb (fun b => b) panicked then 2%N
+  else if forallb (fun b => b) returned then 0%N else 13%N.
+
+(* "messages from one remote address are handled by one logical connection ... in arrival order": a peer sends the
+   requests number 0 .. n-1 back to back from one socket (more of them than the connection's received-message queue
+   holds, while the application is busy); [order] = the numbers in the order the application saw them.  Every request
+   must reach the application exactly once, in that order: class 5 otherwise (1 / 2 as for every run). *)
+Definition c10_burst_class (alive probe stopped : bool) (panics : Z) (peers : list (Z * list Z)) : N :=
+  if negb (alive && probe && stopped) then 1%N
+  else if negb (panics =? 0) then 2%N
+  else if forallb (fun p => list_eqb Z.eqb (snd p) (map Z.of_nat (seq 0 (Z.to_nat (fst p))))) peers then 0%N
+  else 5%N.
+
 (* listeners with a handshake (TLS over TCP, DTLS): "never ... stops accepting ... stalled handshakes ... of one peer
    never change what other peers receive".  Every peer that performs its own handshake properly -- whether it
    connected before or AFTER peers that send nothing, stall in the middle of their ClientHello, send garbage or
